@@ -19,9 +19,10 @@ import (
 )
 
 type CGEdge struct {
-	Callee *ssa.Function
-	Site   ssa.CallInstruction // nil for synthetic edges
-	Kind   string          // call | go | defer | hof (passed to external higher-order function)
+	Callee   *ssa.Function
+	Site     ssa.CallInstruction // nil for synthetic edges
+	Kind     string              // call | go | defer | hof (passed to external higher-order function)
+	Fallback bool                // CHA edge used because VTA resolved no callee at this interface call
 }
 
 type CallGraph struct {
@@ -85,6 +86,7 @@ func (c *Ctx) CG() *CallGraph {
 		}
 		for _, e := range chaEdges {
 			if e.Site != nil && !has[e.Site] && e.Site.Common().IsInvoke() {
+				e.Fallback = true
 				g.vtaOut[fn] = append(g.vtaOut[fn], e)
 			}
 		}
